@@ -490,6 +490,15 @@ impl<'a> Judge<'a> {
             if want.is_file() {
                 file_pairs.push((k.clone(), q.clone()));
             }
+            if let Some(old) = self.b.nodes.get(&q) {
+                // "entries that already existed are kept": a directory that was already there is merged into, not re-moded
+                if old.is_dir() && got.is_dir() && (old.mode != got.mode || old.uid != got.uid || old.gid != got.gid) {
+                    v.push((
+                        format!("{} {} · pre-existing destination directory re-moded [{}]", self.backend, self.call.label(), self.call.opt_label()),
+                        self.detail(out, &format!("{} existed as {} and is now {}", q, show_node(Some(old)), show_node(Some(got)))),
+                    ));
+                }
+            }
             if !self.b.nodes.contains_key(&q) {
                 let expect = match want.kind {
                     Kind::Dir => Some(dm.unwrap_or(want.mode)),
@@ -541,6 +550,14 @@ impl<'a> Judge<'a> {
                     j.detail(out, &format!("followed source entry <src>{} is a {} {:?} but its image {} = {}", x.rel, if x.dir { "dir" } else { "file" }, bytes_repr(&x.content), q, show_node(Some(got)))),
                 ));
                 continue;
+            }
+            if let Some(old) = self.b.nodes.get(&q) {
+                if old.is_dir() && got.is_dir() && (old.mode != got.mode || old.uid != got.uid || old.gid != got.gid) {
+                    v.push((
+                        format!("{} {} · pre-existing destination directory re-moded [{}]", self.backend, self.call.label(), self.call.opt_label()),
+                        j.detail(out, &format!("{} existed as {} and is now {}", q, show_node(Some(old)), show_node(Some(got)))),
+                    ));
+                }
             }
             if !self.b.nodes.contains_key(&q) {
                 let expect = if x.dir { dm.or(x.mode) } else { fm.or(x.mode) };
